@@ -51,6 +51,24 @@ class ConnPoolSpec(Spec):
             'connect/disconnect latencies are multiples of 5 ms up to 1 s; holders release after at most 0.3 s',
         ]
 
+    def on_wall_timeout(self, frames):
+        """A run that exceeds the wall cap while the interpreter is inside the
+        pool's own code: some pool callback never returns, so no acquire() can
+        ever be served.  That is a C16 violation (for C15 it stays a harness
+        error: nothing can be said about safety)."""
+        if self.property_id != 'C16':
+            return None
+        inside = [f for f in frames if '/edb/server/connpool/' in f]
+        if not inside or '/edb/server/connpool/' not in ''.join(frames[-3:]):
+            return None
+        where = inside[-1].strip().splitlines()[0]
+        v = {'property': 'C16', 'kind': 'L2', 'signature': 'hang:pool-callback-never-returns',
+             'detail': f'the simulated run made no progress for the whole wall budget; the interpreter was inside '
+                       f'the pool: {where}', 'step': -1, 'vtime': -1.0, 'no_shrink': True}
+        return {'violations': [v], 'digest': 0, 'nontrivial': False, 'steps': 0, 'sim_time': 0.0,
+                'faults': {}, 'probes': {'wall_timeout_inside_pool': 1}, 'served': 0, 'errored': 0,
+                'config': None, 'internal_errors': [], 'trace': [], 'bound': 0.0}
+
     def run_world(self, tape, stratum, mutant=None, record=False, **kw):
         live = self.property_id == 'C16'
         big = stratum == 'big'      # up to 200 clients; faults as in 'core'
@@ -265,6 +283,17 @@ C16_MUTANTS = [
                 break
 """)]},
 ]
+
+C16_MUTANTS.append(
+    {'name': 'feeder_loops_forever', 'expect': 'L2 hang', 'budget': 3000,
+     'patches': [(F, """            if self._cur_capacity < self._max_capacity:
+                self._schedule_new_conn(block)
+                continue
+""", """            while self._cur_capacity < self._max_capacity and not block.count_conns() is None:
+                if block.count_conns():
+                    continue
+                self._schedule_new_conn(block)
+""")]})
 
 SPECS['C15'].mutants = C15_MUTANTS
 SPECS['C15'].quick_mutants = ['connect_failure_keeps_capacity', 'connect_releases_twice',
